@@ -11,7 +11,7 @@ func corpus() []*Scenario {
 	id := 0
 	base := func(kind string) *Scenario {
 		id++
-		sc := &Scenario{ID: id, Stream: "corpus", Kind: kind, Trigger: "msg", TriggerText: "dark red and blue 23", TimeoutCat: -1, Default: -1,
+		sc := &Scenario{ID: id, Stream: "corpus", Kind: kind, Trigger: "msg", TriggerText: "dark red and blue 23", TimeoutCat: -1, Default: -1, ChildLang: -1,
 			ContactLang: 1, Allowed: []int{1}, ContactName: "Bob", Age: "23", Gender: "Male", InGroups: []int{0}, Country: "US",
 			DateFormat: "DD-MM-YYYY", MaxResult: 640, Loc: Loc{}, NumDest: 2, Operand: "@input.text", ResultName: "Color"}
 		return sc
@@ -155,6 +155,48 @@ func corpus() []*Scenario {
 	sc.Default, sc.TriggerText = 3, "red"
 	cs(sc, "has_only_text", 1, " @(\"blue\") ")
 	cs(sc, "has_only_text", 0, " @(\"red\") ")
+	out = append(out, sc)
+
+	// parent -> child -> back to the router: the child changes the contact in the same sprint and the router has to
+	// see the contact as it is then.  The parent localized a message before entering the child.
+	child := func(wait bool) *Scenario {
+		sc := base("switch")
+		std(sc, 4)
+		sc.Cats[0].Name, sc.Cats[3].Name = "Yes", "Other"
+		sc.Default = 3
+		sc.Pre, sc.PreExits, sc.PreToRouter, sc.Child = true, 1, true, true
+		sc.ContactLang, sc.Allowed = 1, []int{1, 2}
+		sc.Loc.set("fra", mkUUID(kAction, 64), "text", []string{"Bonjour"})
+		sc.Loc.set("fra", sc.Cats[0].UUID, "name", []string{"Oui"})
+		if wait {
+			sc.Trigger, sc.Wait, sc.Resume, sc.ResumeText = "manual", true, "msg", "oui"
+		} else {
+			sc.TriggerText = "oui"
+		}
+		return sc
+	}
+	for _, wait := range []bool{false, true} {
+		// the child sets the language to fra: the French arguments ("oui") are the ones to use
+		sc = child(wait)
+		sc.ChildLang = 2
+		cs(sc, "has_only_text", 0, "yes")
+		sc.Loc.set("fra", sc.Cases[0].UUID, "arguments", []string{"oui"})
+		out = append(out, sc)
+	}
+	// the child clears the language of a French contact: back to the base arguments
+	sc = child(false)
+	sc.ContactLang, sc.ChildLang, sc.TriggerText = 2, 0, "yes"
+	cs(sc, "has_only_text", 0, "yes")
+	sc.Loc.set("fra", sc.Cases[0].UUID, "arguments", []string{"oui"})
+	out = append(out, sc)
+	// the child renames the contact and sets a field: operands see the new values
+	sc = child(false)
+	sc.ChildName, sc.Operand = "Yes", "@contact.name"
+	cs(sc, "has_only_text", 0, "Yes")
+	out = append(out, sc)
+	sc = child(false)
+	sc.ChildAge, sc.Operand = "10", "@fields.age"
+	cs(sc, "has_number_eq", 0, "10")
 	out = append(out, sc)
 
 	// previous result under the same key with the same value and category: saved again, no event
